@@ -256,3 +256,117 @@ theorem priceOf_min (bl el ml hd : Nat) : 200 ≤ priceOf true bl el ml hd := by
 
 end Modexp
 end Artela
+
+namespace Artela
+namespace Modexp
+open Interp
+
+/-- what `getData` returns has exactly the requested length (sizes and inputs below 2^63, as every Go slice is) -/
+theorem getData_length (data : Bytes) (start size : Nat) (d : Bytes) (hd : data.length < 2 ^ 63) (hs : size < 2 ^ 63)
+    (h : getData data start size = .ok d) : d.length = size := by
+  have hU := U64_eq
+  unfold getData at h
+  dsimp only at h
+  generalize hst : (if start > data.length then data.length else start) = st at h
+  have hst' : st ≤ data.length := by rw [← hst]; split <;> omega
+  have hm : (st + size) % U64 = st + size := Nat.mod_eq_of_lt (by omega)
+  rw [hm] at h
+  have hc : st ≤ (if st + size > data.length then data.length else st + size) ∧
+      (if st + size > data.length then data.length else st + size) ≤ data.length :=
+    ⟨by split <;> omega, by split <;> omega⟩
+  unfold goSlice at h
+  rw [if_pos hc] at h
+  simp only [hs, if_true] at h
+  injection h with h
+  subst h
+  unfold rightPad
+  simp only [Nat.sub_self, List.replicate_zero, List.append_nil, List.extract_eq_take_drop]
+  by_cases hgt : st + size > data.length
+  · simp only [hgt, if_true]
+    have hl : (List.take (data.length - st) (List.drop st data)).length = data.length - st := by
+      simp only [List.length_take, List.length_drop]; omega
+    split
+    · omega
+    · simp only [List.length_append, List.length_replicate, hl]; omega
+  · simp only [hgt, if_false]
+    have hl : (List.take (st + size - st) (List.drop st data)).length = size := by
+      simp only [List.length_take, List.length_drop]; omega
+    split
+    · exact hl
+    · simp only [List.length_append, List.length_replicate, hl]; omega
+
+/-- the modulus `Run` reads fits the modulus length, so `run_spec`'s length clause applies to every run -/
+theorem operands_mod_fits (input : Bytes) (o : Operands) (hi : input.length < 2 ^ 63) (h : operands input = .ok (some o))
+    (hm : o.modLen < 2 ^ 63) : o.mod < 256 ^ o.modLen := by
+  unfold operands at h
+  cases hl : lens input with
+  | ok r =>
+    obtain ⟨bl, el, ml, rest⟩ := r
+    have hrest : rest.length ≤ input.length := by
+      unfold lens at hl
+      cases h1 : getData input 0 32 with
+      | ok b =>
+        cases h2 : getData input 32 32 with
+        | ok e =>
+          cases h3 : getData input 64 32 with
+          | ok m =>
+            rw [h1] at hl
+            simp only [bind, Res.bind] at hl
+            rw [h2] at hl
+            simp only [Res.bind] at hl
+            rw [h3] at hl
+            simp only [Res.bind, pure] at hl
+            injection hl with hl
+            have : rest = if input.length > 96 then input.drop 96 else [] := by
+              have := congrArg (fun x => x.2.2.2) hl
+              exact this.symm
+            rw [this]; split <;> simp
+          | err x => rw [h1] at hl; simp only [bind, Res.bind] at hl; rw [h2] at hl; simp only [Res.bind] at hl; rw [h3] at hl; cases hl
+          | panic x => rw [h1] at hl; simp only [bind, Res.bind] at hl; rw [h2] at hl; simp only [Res.bind] at hl; rw [h3] at hl; cases hl
+        | err x => rw [h1] at hl; simp only [bind, Res.bind] at hl; rw [h2] at hl; cases hl
+        | panic x => rw [h1] at hl; simp only [bind, Res.bind] at hl; rw [h2] at hl; cases hl
+      | err x => rw [h1] at hl; cases hl
+      | panic x => rw [h1] at hl; cases hl
+    rw [hl] at h
+    simp only [bind, Res.bind] at h
+    split at h
+    · cases h
+    · cases hb : getData rest 0 (bl % U64) with
+      | ok b =>
+        rw [hb] at h
+        simp only [Res.bind] at h
+        cases he : getData rest (bl % U64) (el % U64) with
+        | ok e =>
+          rw [he] at h
+          simp only [Res.bind] at h
+          cases hmd : getData rest ((bl % U64 + el % U64) % U64) (ml % U64) with
+          | ok m =>
+            rw [hmd] at h
+            simp only [Res.bind, pure] at h
+            injection h with h
+            injection h with h
+            subst h
+            simp only at hm ⊢
+            have := getData_length rest _ _ m (by omega) hm hmd
+            rw [← this]
+            exact beNat_lt m
+          | err x => rw [hmd] at h; cases h
+          | panic x => rw [hmd] at h; cases h
+        | err x => rw [he] at h; cases h
+        | panic x => rw [he] at h; cases h
+      | err x => rw [hb] at h; cases h
+      | panic x => rw [hb] at h; cases h
+  | err x => rw [hl] at h; cases h
+  | panic x => rw [hl] at h; cases h
+
+/-- MODEXP, in one statement: a run that reads operands returns exactly `modLen` bytes whose value is 0 for a zero modulus
+    and base ^ exp mod m otherwise (inputs and modulus lengths below 2^63, as every Go slice is) -/
+theorem run_correct (input : Bytes) (o : Operands) (hi : input.length < 2 ^ 63) (h : operands input = .ok (some o))
+    (hm : o.modLen < 2 ^ 63) :
+    ∃ out, run input = .ok out ∧ out.length = o.modLen ∧
+      beNat out = (if o.mod = 0 then 0 else o.base ^ o.exp % o.mod) := by
+  obtain ⟨out, h1, h2, h3⟩ := run_spec input o h
+  exact ⟨out, h1, h3 (operands_mod_fits input o hi h hm), h2⟩
+
+end Modexp
+end Artela
